@@ -25,6 +25,11 @@ def generate(rng, tier):
             c["pre"] = [rng.choice([(2 * T, rate), (T + 7, rate), (max(1, T // 2), rate), (T, rate + 1), (10 * T + 3, -rate)]) for _ in range(rng.choice([1, 1, 2]))]
             c["kw"] = rng.choice([0, 0, 2]); c["family"] += "/after-sibling-call"
         elif r < 0.25: c["kw"] = 2; c["family"] += "/keyword-arguments"
+        if rng.random() < 0.04:
+            f = rng.choice(["rate", "accel", "jerk"]); a, b = rng.choice([(-1, -2), (-2, -1), (0, 1)])
+            c2 = dict(c); c2[f] = a
+            if ebbgen.t3_in_domain(c2["T"], c2["rate"], c2["accel"], c2["jerk"]):
+                c = dict(c2, over=[{f: b}], family="after-call-differing-in-one-argument/%s" % f)
         cases.append(c)
     # moves that leave the 2^31-1 range (the reason the helper exists: its report is compared with the limit): the rate passes the
     # limit at the first tick, at the last tick, or at an interior extremum; magnitudes kept below 2^36 so that the float
@@ -52,6 +57,10 @@ def generate(rng, tier):
 
 def run_impl(c):
     kw = c.get("kw", 0)
+    for ov in c.get("over", []):
+        d = dict(c, **ov)
+        try: ebbgen.call(ebb_calc.max_rate_t3, (d["T"], d["rate"], d["accel"], d["jerk"]), kw)
+        except Exception: pass
     for (t0, r0) in c.get("pre", []):
         try: ebbgen.call(ebb_calc.max_rate_t3, (t0, r0, c["accel"], c["jerk"]), kw)
         except Exception: pass           # the earlier call may lie outside the domain; only its side effects matter here
